@@ -116,3 +116,16 @@ def run_prop_stream(report, name, progs, facets, jobs=None):
     report.obligation(f"correspondence:{name}", n_dis == 0,
                       f"{len(recs)} programs, {compared} lines compared, {n_dis} programs disagree")
     return recs, first
+
+
+def corpus_programs(pid):
+    """minimised past failures for a property (run first)"""
+    import os
+    from common import CORPUS_DIR
+    d = os.path.join(CORPUS_DIR, pid)
+    out = []
+    if os.path.isdir(d):
+        for fn in sorted(os.listdir(d)):
+            if fn.endswith(".json"):
+                out.append(fix_prog(json.load(open(os.path.join(d, fn)))["program"]))
+    return out
